@@ -114,6 +114,54 @@ def check(kinds, edges, seq, stats):
                      expected=sorted(wen), observed=sorted(en))
         if refgraph.observe(g) != before:
             return V('query_changed_graph', 'a query modified the graph')
+    # the queries must follow the CURRENT state of the graph: edit tags / statuses / flags after the queries
+    # have already been asked once (an answer remembered inside the nodes would now be stale)
+    kinds = [list(k) for k in kinds]
+    for i, node in enumerate(nodes if len(seq) <= 1 else []):     # (after the empty and the one-step sequences)
+        t = kinds[i][0]
+        edits = []
+        if t == 'defense':
+            def flip_tag(node=node, i=i):
+                if 'suppress' in node.tags:
+                    node.tags.remove('suppress')
+                else:
+                    node.tags.append('suppress')
+                kinds[i][3] = tuple(node.tags)
+
+            def reassign_tags(node=node, i=i):
+                node.tags = [] if 'suppress' in node.tags else ['x', 'suppress']
+                kinds[i][3] = tuple(node.tags)
+
+            def flip_status(node=node, i=i):
+                node.defense_status = 0.0 if node.defense_status == 1.0 else 1.0
+                kinds[i][2] = node.defense_status
+            edits = [('tags_in_place', flip_tag), ('tags_assigned', reassign_tags), ('status', flip_status)]
+        else:
+            def flip_viable(node=node, i=i):
+                node.is_viable = not node.is_viable
+                kinds[i][1] = (node.is_viable, node.is_necessary)
+
+            def flip_necessary(node=node, i=i):
+                node.is_necessary = not node.is_necessary
+                kinds[i][1] = (node.is_viable, node.is_necessary)
+            edits = [('viable', flip_viable), ('necessary', flip_necessary)]
+        for what, edit in edits:
+            edit()
+            kk = [tuple(k) for k in kinds]
+            ds = {idx.get(id(x), -1) for x in query.get_defense_surface(g)}
+            en = {idx.get(id(x), -1) for x in query.get_enabled_defenses(g)}
+            wds = {j for j, k in enumerate(kk) if k[0] == 'defense' and 'suppress' not in k[3] and k[2] != 1.0}
+            wen = {j for j, k in enumerate(kk) if k[0] == 'defense' and 'suppress' not in k[3] and k[2] == 1.0}
+            stats['queries'] += 2
+            if ds != wds or en != wen:
+                return V(f'stale_after_edit:{what}:defense_queries', f'defense surface / enabled defenses ignore an edit of {what} made after an earlier query',
+                         expected=[sorted(wds), sorted(wen)], observed=[sorted(ds), sorted(en)])
+            got = {idx.get(id(x), -1) for x in query.get_attack_surface(A)}
+            want = ref_surface(kk, children, parents, reached)
+            stats['queries'] += 1
+            if got != want:
+                return V(f'stale_after_edit:{what}:attack_surface', f'attack surface ignores an edit of {what} made after an earlier query',
+                         expected=sorted(want), observed=sorted(got))
     stats['executions'] = stats.get('executions', 0) + 1
     return None
 
